@@ -4,7 +4,7 @@ CONSTANTS
   Ops = {"Authorize", "Login", "Callback", "CodeExchange", "UserInfo", "Introspect", "Revoke", "Expire", "EndSession"}
   MaxReq = 1
   MaxCode = 1
-  MaxAT = 2
+  MaxAT = 3
   MaxDev = 0
   MaxSteps = 99
   Seeded = FALSE
